@@ -53,6 +53,7 @@ def build_plan(choice: Choice, tier):
             else:
                 ops.append(["listing"])
         p["ops"] = ops
+        p["pre_creates"] = [0, 0, 1, 2][d(4, "pre_creates")]     # create() calls before the with statement is entered
         p["raise_after"] = d(len(ops) + 1, "raise_at") if d(2, "raises") == 1 else None   # raise before op i / at the end
         p["multi_proc_flag"] = False
     elif p["family"] == "filepool":
@@ -63,6 +64,8 @@ def build_plan(choice: Choice, tier):
         p["reenter"] = d(3, "reenter") == 2
         # fault: one of the files is missing when the pool is entered for the first time (r modes), the error
         # propagates; the file then appears and the same pool object is used again
+        # an unusual member of the set: a device file that can be written but not synced or seeked
+        p["dev_null_at"] = d(max(1, n - 1), "devnull.at") if (d(4, "devnull") == 3 and p["modes"] in ("w", "a") and n >= 2) else None
         p["missing_at_first_enter"] = d(n, "missing.which") if (d(4, "missing") == 3 and p["modes"] in ("r", "rb")) else None
     else:
         p["children"] = 1 + d(3, "children")
@@ -116,7 +119,12 @@ def run_tmp_single(plan, tmpdir):
     raised = None
     pool = files.TmpPool(d)
     try:
+        for _ in range(plan.get("pre_creates", 0)):
+            pth = pool.create()
+            created.append(pth)
+            model.append(pth)
         with pool:
+            check(pool, "after entering the context")
             for i, op in enumerate(plan["ops"]):
                 if plan["raise_after"] is not None and i == plan["raise_after"]:
                     raise BodyError(f"body raised before op {i}")
@@ -187,6 +195,8 @@ def run_filepool(plan, tmpdir):
         with open(pth, "w") as f:
             f.write(f"content {i}\n")
         paths.append(pth)
+    if plan.get("dev_null_at") is not None:
+        paths[plan["dev_null_at"]] = "/dev/null"
     handed = []
     mode = plan["modes"]
     pool = files.FilePool(paths, mode)
@@ -429,6 +439,9 @@ class Spec:
         obs = {"tmpdir": tmpdir, "viol": [], "phase": "init"}
 
         def on_end(kind, info):
+            if kind == "unsupported":
+                emit({"verdict": "harness-error", "message": "simulated environment lacks something the code asked for: "
+                      + str(info.get("exc"))})
             from props.poolsim import stall_site, compress_trace
             viol = list(obs["viol"])
             if kind == "stall":
